@@ -19,9 +19,9 @@ pdev = Fn(FAM + '{impl ExponentialFamily}::penalized_deviance', ret='r', level='
           requires=['C06.pdev.coef:: coef@.len() >= 1'],
           ensures=['C06.pdev.valid:: y@.len() == mu@.len()',
                    'C06.pdev.def:: exists|d: f64| #[trigger] is_family_deviance(*self, y@, mu@, d) && rv(r) == rv(d) + rv(alpha) * r_sqrt(dsum(coef@.subrange(1, coef@.len() as int), coef@.subrange(1, coef@.len() as int), coef@.len() - 1))'],
-          rewrites=[('self.deviance(y, mu) + alpha * norm(&coef[1..])',
-                     '({ let d_ = self.deviance(y, mu); let s_ = &coef[1..]; let nr_ = norm(s_); proof { assert(s_@ =~= coef@.subrange(1, coef@.len() as int)); '
-                     'assert(is_family_deviance(*self, y@, mu@, d_)); } d_ + alpha * nr_ })', 'R31: A-normal form, evaluation order kept')])
+          rewrites=[(r'self\.deviance\(y, mu\) \+ alpha \* norm\(&coef\[(\w+)\.\.\]\)',
+                     r'({ let d_ = self.deviance(y, mu); let s_ = &coef[\1..]; let nr_ = norm(s_); proof { assert(s_@ =~= coef@.subrange(\1, coef@.len() as int)); '
+                     r'assert(is_family_deviance(*self, y@, mu@, d_)); } d_ + alpha * nr_ })', 'R31: A-normal form, evaluation order kept', 're')])
 
 PDEV_SPEC = r'''
 /// d is the family's deviance of (y, mu) (whenever the family's domain condition on mu holds)
@@ -126,7 +126,7 @@ fit = Fn(IG + 'fit', ret='r', level='L1', valid='fit_valid(*old(self), x@, y@)',
          hints=[('let mut ddbeta: Vec<f64>;', 'after', 'let ghost mut pd_prev_: f64 = penalized_deviance; let ghost mut c0_: Seq<f64> = coef@; proof { ' + ARITH + ' assert(fit_weights(*self, n as int, weights@)); }'),
                 ('if !is_design(x, n)', 'before', 'proof { lemma_div_facts(x@.len() as int, n as int); assert(p >= 1) by { if p == 0 { assert(0 * n == 0); } } }'),
                 ('self.coef = Some(coef);', 'before', 'let ghost c1_ = coef@; proof { ' + ARITH + ' }'),
-                ('if n_iter >= max_iter && !is_converged {', 'before', 'proof { assert(fit_result_w(*old(self), *self, x@, y@, n as int, p as int, weights@, c0_, mu.v@, dmu.v@, var.v@)); } //@[C06.fit.stored]')])
+                ('self.p = Some(p);', 'after', 'proof { assert(fit_result_w(*old(self), *self, x@, y@, n as int, p as int, weights@, c0_, mu.v@, dmu.v@, var.v@)); } //@[C06.fit.stored]')])
 UNITS = [
     Unit('C06_pdev', 'C06', [pdev], use=[c06.deviance, c04.norm], types=TYPES, type_spec=core.TYPE_SPEC, spec=c06.SPEC + c06.DEV_SPEC + PDEV_SPEC, preludes=PRE, broadcast=BC, level='L1',
          notes='penalized_deviance = family deviance + alpha * norm of the slope coefficients (intercept excluded)'),
